@@ -407,6 +407,16 @@ func checkMemberAppends(p *Prog, r *Report, f *ssa.Function) {
 		n++
 		src := stripValue(a.list)
 		ok := sameListVar(stripValue(a.c.Call.Args[0]), src) || listBuiltFrom(src, status, 0)
+		if !ok {
+			// a clone of one of the parsed URL's own lists (append(nil, su.X...)):
+			// its elements are validated later like those of a make+copy clone
+			base := a.c.Call.Args[0]
+			if cst, isC := base.(*ssa.Const); isC && cst.Value == nil {
+				if b2, _, okf := fieldLoad(src); okf && strings.HasSuffix(typeStr(deref(b2.Type())), "SimpleURL") {
+					ok = true
+				}
+			}
+		}
 		r.decide(ok, "C07.member-append", funcName(f)+":"+p.describe(a.c), p.pos(a.c.Pos()), "appends a list that is a part of the same list or was built from guarded elements",
 			"a list of unknown provenance is appended to a result list")
 	}
